@@ -442,7 +442,10 @@ def run(ctx):
     r6 = rep.rule('C10.6-control-files', 'R-TABLE', 'control_readfile(): the list handed to constmap holds exactly the non-empty, non-comment lines with trailing blanks removed (so an empty domain is never "listed")')
     for inst, v in sorted(control_file_sites(db, rep, prog).items()):
         r6.check(v[0], inst, v[1], v[2], v[3])
-    r6.expect_min(1)
+    from rules import C14 as _c14c
+    v_ = _c14c.control_value_sites(db, rep)['controls:only-locals-defaults-to-me']
+    r6.check(v_[0], 'controls:only-locals-defaults-to-me', v_[1], v_[2], v_[3])
+    r6.expect_min(2)
     r4 = rep.rule('C10.4-one-record-per-recipient', 'R-TYPESTATE', 'todo_do: exactly one channel record (rwline) per T record, to the channel rewrite() chose, in file order')
     td = qsend.analyse_todo_do(db, rep)
     attach(r4, td, only={'todo:exactly-one-channel-record-per-T', 'todo:no-channel-record-for-non-T', 'todo:channel-record-is-rwline',
